@@ -125,6 +125,7 @@ def run_as(ctx, case):
     sc = max(1.0, float(np.abs(A).max()))
     B = ref.gellmann_basis(d)
     v = gm.matrix_to_gellmann_basis(Ain)
+    ctx.close(Ain, A, 0 if prec == 64 else 1e-30, 'analysis does not modify its input')
     ctx.require(tuple(v.shape) == shape + (d * d,), 'coefficient vector shape', f'{tuple(v.shape)}')
     v_ref = np.einsum('aij,...ji->...a', B, A) / 2
     ctx.close(v, v_ref, tol, 'analysis = Tr(G_i A)/2', sc)
@@ -139,6 +140,7 @@ def run_as(ctx, case):
     w = np.asarray(win.numpy() if backend == 'torch' else win).astype(np.complex128)
     sw = max(1.0, float(np.abs(w).max()))
     Mw = gm.gellmann_basis_to_matrix(win)
+    ctx.close(win, w, 0 if prec == 64 else 1e-30, 'synthesis does not modify its input')
     ctx.close(Mw, np.einsum('...a,aij->...ij', w, B), tol, 'synthesis = sum v_i G_i', sw)
     w2 = gm.matrix_to_gellmann_basis(Mw)
     ctx.close(w2, w, tol, 'vector -> matrix -> vector = id', sw)
